@@ -57,6 +57,7 @@ def plan(tier, seed):
             for eps in ((0.01, 0.003) if tier == "quick" else (0.01, 0.003, 0.03)):
                 for explicit in (False, True):
                     g.append({"part": "gruneisen", "xtal": name, "S": S, "g": gexp, "eps": eps, "explicit_delta": explicit})
+                g.append({"part": "gruneisen", "xtal": name, "S": S, "g": gexp, "eps": eps, "explicit_delta": False, "swapped": True})
             if name in NACX:
                 for nac in ("wang", "gonze"):
                     g.append({"part": "gruneisen", "xtal": name, "S": S, "g": gexp, "eps": 0.01, "explicit_delta": False, "nac": nac})
@@ -165,6 +166,29 @@ def run_ddm(case, seed, st):
             if e > 1e-12:
                 return dict(ok=False, sig="C12/ddm-q-layout/" + tag, resid=float(e), nontrivial=True,
                             msg="%s: dD/dq at q=%s given as a row of a %s array differs from the same q as a fresh array by %.3g" % (case["xtal"], qarr[k].tolist(), lname, e))
+    if case["nac"] == "wang" and case.get("fck") != "asym":
+        # history on the objects themselves: the NAC parameters of the dynamical matrix are replaced after a first derivative run
+        # (on an object of its own: the shared one must stay as it is for the other cases)
+        php = phx.make_phonopy(phx.xtal(case["xtal"]), case["S"], None)
+        php.force_constants = np.array(ph.force_constants, dtype="double", order="C").copy()
+        php.nac_params = _nac(php, case["xtal"], case["nac"], seed)
+        dmo = php.dynamical_matrix
+        ddp = DerivativeOfDynamicalMatrix(dmo)
+        q = qarr[0]
+        ddp.run(q, lang=case["lang"])
+        old = dmo.nac_params
+        dmo.nac_params = dict(old, born=np.array(old["born"]) * 0.6, dielectric=np.array(old["dielectric"]) * 1.3)
+        ddp.run(q, lang=case["lang"])
+        got = np.array(ddp.d_dynamical_matrix)
+        num = []
+        for a in range(3):
+            step = L[:, a] * h
+            num.append((-dm_at(php, q + 2 * step) + 8 * dm_at(php, q + step) - 8 * dm_at(php, q - step) + dm_at(php, q - 2 * step)) / (12 * h))
+        num = np.array(num)
+        e = np.abs(got - num).max() / max(np.abs(num).max(), 1e-9)
+        if e > 2e-6:
+            return dict(ok=False, sig="C12/ddm-stale-after-nac-change/" + tag, resid=float(e), nontrivial=True,
+                        msg="%s: after dynamical_matrix.nac_params was replaced, dD/dq differs from the numerical derivative of the (new) D(q) by %.3g" % (case["xtal"], e))
     if case["nac"]:
         for nd in ([1.0, 0, 0], [0.2, 0.7, -0.4]):
             ddm.run(np.zeros(3), q_direction=np.array(nd), lang=case["lang"])
@@ -232,6 +256,25 @@ def run_gv(case, seed, st):
             if e > tol:
                 return dict(ok=False, sig="C12/gv-vs-frequency-gradient/" + tag, resid=float(e / gs), nontrivial=True,
                             msg="%s q=%s band %d: group velocity %s, gradient of the frequency %s (+-%.2g)" % (case["xtal"], q.tolist(), b, gv[k, b].round(6).tolist(), grad[b].round(6).tolist(), gerr[b].max()))
+    # the class used directly with a non-default cutoff frequency: modes above the cutoff that are not degenerate keep their velocity
+    if case["route"] == "analytic":
+        from phonopy.phonon.group_velocity import GroupVelocity
+        import phonopy.units as U
+
+        for cut in (0.2 * width, 0.02 * width):
+            gvc = GroupVelocity(ph.dynamical_matrix, symmetry=ph.primitive_symmetry, frequency_factor_to_THz=U.VaspToTHz, cutoff_frequency=cut)
+            gvc.run(np.array(qs))
+            g2 = np.array(gvc.group_velocities)
+            for k in range(len(qs)):
+                for b in range(nb):
+                    gap = min([abs(fr[k][b] - fr[k][j]) for j in range(nb) if j != b] + [1e9])
+                    if gap < 2e-3 * width or fr[k][b] <= cut * 1.01:
+                        continue
+                    e = np.abs(g2[k, b] - gv[k, b]).max()
+                    if e > 1e-6 * max(np.abs(gv).max(), 1e-6):
+                        return dict(ok=False, sig="C12/gv-depends-on-cutoff/" + tag, resid=float(e), nontrivial=True,
+                                    msg="%s q=%s band %d (%.4f THz, nearest band %.4f THz away): GroupVelocity(cutoff_frequency=%.3g) gives %s, default cutoff %s" % (
+                                        case["xtal"], qs[k].tolist(), b, fr[k][b], gap, cut, g2[k, b].round(5).tolist(), gv[k, b].round(5).tolist()))
     return dict(ok=True, resid=float(worst), nontrivial=True, transitions=len(qs) * 13, outcome="ok:gv:" + case["route"], count={"modes_skipped_near_degenerate": skipped})
 
 
@@ -260,7 +303,12 @@ def run_gruneisen(case, seed, st):
         phs.append(ph)
     want = -((1 + eps) ** (-2 * gexp) - (1 - eps) ** (-2 * gexp)) / (4 * eps)
     tag = ("explicit-delta" if case["explicit_delta"] else "delta-from-volumes") + ("/nac=%s" % case["nac"] if case.get("nac") else "")
-    gr = PhonopyGruneisen(phs[0], phs[1], phs[2], delta_strain=(2 * eps if case["explicit_delta"] else None))
+    if case.get("swapped"):
+        # "built from the three volumes supplied": the larger volume handed over in the second-volume slot
+        tag += "/larger-volume-in-the-minus-slot"
+        gr = PhonopyGruneisen(phs[0], phs[2], phs[1])
+    else:
+        gr = PhonopyGruneisen(phs[0], phs[1], phs[2], delta_strain=(2 * eps if case["explicit_delta"] else None))
     worst = 0.0
     import phonopy.units as U
 
